@@ -308,6 +308,7 @@ package connect
 //@ trusted func handlerConnCloser.Close(c, err) res
 //@   assigns everything
 //@ trusted func field:Handler.implementation(ctx, conn) res
+//@   panics
 //@   assigns everything, implCalls()
 //@   ensures implCalls() == old(implCalls()) + 1
 //@ trusted func ret:protocolHandler.SetTimeout.1()
@@ -317,7 +318,9 @@ package connect
 //@ macro accepted(h *Handler, ct seq) bool = exists j int :: 0 <= j && j < |h.protocolHandlers| && mapdom(cast(ctmap(h.protocolHandlers[j]), "map[string]struct{}"), ct)
 
 //@ func (*Handler).ServeHTTP(h, responseWriter, request)
-//@   tags C07, C10, C12
+//@   tags C07, C10, C12, C19
+//@   ensures !panicked("field:Handler.implementation", 1)   // label: a-panic-of-the-implementation-is-never-swallowed-here-(recovery-is-the-interceptor's-business)   // tags: C19
+//@   panicensures panicked("field:Handler.implementation", 1) && panicvalue == panicval("field:Handler.implementation", 1)   // label: a-panic-that-reaches-ServeHTTP-(the-abort-sentinel-included)-leaves-it-untouched   // tags: C19
 //@   requires h != nil && responseWriter != nil && request != nil && rwstatus(responseWriter) == 0 && h.implementation != nil
 //@   requires forall j int :: {h.protocolHandlers[j]} 0 <= j && j < |h.protocolHandlers| ==> h.protocolHandlers[j] != nil
 //@   assigns everything, implCalls()
@@ -1454,6 +1457,7 @@ package connect
 //@   ensures !old(u.alreadyRead) && u.readMaxBytes > 0 && u.readMaxBytes < 9223372036854775807 && |old(rest(u.reader))| > u.readMaxBytes ==> res != nil && (old(termerr(u.reader)) == io.EOF ==> res.code == 3)   // label: body-over-the-limit-is-rejected   // tags: C09
 //@   ensures !old(u.alreadyRead) && old(termerr(u.reader)) == io.EOF && (u.readMaxBytes == 0 || |old(rest(u.reader))| <= u.readMaxBytes) ==> called("(*connectUnaryUnmarshaler).UnmarshalFunc.unmarshal", 1) || called("(*compressionPool).Decompress", 1)   // label: body-within-the-limit-reaches-the-decoder   // tags: C09
 //@   ensures !old(u.alreadyRead) && res == nil && u.readMaxBytes > 0 ==> |old(rest(u.reader))| <= u.readMaxBytes && old(termerr(u.reader)) == io.EOF   // label: accepted-body-is-within-the-limit-and-complete   // tags: C09, C04
+//@   assert@call((*bytes.Buffer).ReadFrom#1): u.readMaxBytes > 0 && u.readMaxBytes < 9223372036854775807 ==> |rest(arg1)| <= u.readMaxBytes + 1   // label: never-buffers-more-than-one-byte-beyond-the-limit-whatever-length-the-peer-declared   // tags: C09
 //@   ensures !old(u.alreadyRead) && coded(termerr(u.reader)) && !Is(termerr(u.reader), io.EOF) ==> res == asErr(termerr(u.reader))   // label: coded-transport-error-passes-through-also-while-draining-an-oversized-body   // tags: C15
 //@   ensures res != nil && (res.code == 1 || res.code == 4) ==> coded(termerr(u.reader)) || Is(termerr(u.reader), context.Canceled) || Is(termerr(u.reader), context.DeadlineExceeded)   // label: canceled-and-deadline-exceeded-only-come-from-the-transport   // tags: C06, C15
 //@   ensures !old(u.alreadyRead) && !coded(termerr(u.reader)) && Is(termerr(u.reader), context.Canceled) ==> res != nil && codeOf(res) == 1   // label: a-read-cut-short-by-cancellation-is-canceled   // tags: C15
